@@ -76,3 +76,87 @@ def connected_graphs(n, rng=None, all_labelled=False):
 def relabel(A, perm):
     A = np.asarray(A)
     return A[np.ix_(perm, perm)]
+
+
+def min_distortion_bb(DX, DY):
+    """inf over all maps f: X -> Y of dis f, by backtracking with pruning on the partial distortion (exact)"""
+    DX, DY = np.asarray(DX), np.asarray(DY)
+    n, m = len(DX), len(DY)
+    # assign far-apart points first: large distances constrain most
+    order = list(np.argsort(-DX.sum(axis=1), kind="stable"))
+    best = [float(max(DX.max(), DY.max()))]       # the constant map's distortion is diam X; any map is <= max of diameters
+    img = [0] * n
+
+    def rec(pos, cur):
+        if cur >= best[0]:
+            return
+        if pos == n:
+            best[0] = cur
+            return
+        x = order[pos]
+        for y in range(m):
+            c = cur
+            for q in range(pos):
+                xa = order[q]
+                dd = abs(DX[x, xa] - DY[y, img[q]])
+                if dd > c:
+                    c = dd
+                    if c >= best[0]:
+                        break
+            if c < best[0]:
+                img[pos] = y
+                rec(pos + 1, c)
+                if best[0] == 0:
+                    return
+    rec(0, 0.0)
+    return best[0]
+
+
+def mgh_bb(A, B):
+    DX, DY = dist_matrix(A), dist_matrix(B)
+    return 0.5 * max(min_distortion_bb(DX, DY), min_distortion_bb(DY, DX))
+
+
+def _from_edges(n, edges):
+    A = np.zeros((n, n), dtype=int)
+    for u, v in edges:
+        A[u, v] = A[v, u] = 1
+    return A
+
+
+def spider(legs):
+    """a centre with legs of the given lengths"""
+    edges, n = [], 1
+    for L in legs:
+        prev = 0
+        for _ in range(L):
+            edges.append((prev, n))
+            prev = n
+            n += 1
+    return _from_edges(n, edges)
+
+
+def cycle_with_leaves(c, leaves):
+    """a c-cycle; leaves[i] pendant vertices hang on cycle vertex i"""
+    edges = [(i, (i + 1) % c) for i in range(c)]
+    n = c
+    for i, k in enumerate(leaves):
+        for _ in range(k):
+            edges.append((i, n))
+            n += 1
+    return _from_edges(n, edges)
+
+
+def structured_shapes(max_n=7):
+    """paths, stars, brooms, spiders, cycles with pendant leaves - shapes of diameter >= 3 with many equidistant points,
+    where the curvature-based confirmation of the lower bound is actually reached"""
+    out = {}
+    for legs in ([1, 1, 1], [2, 1, 1], [2, 2, 1], [3, 1, 1], [2, 2, 2], [4, 1], [3, 2], [1, 1, 1, 1], [2, 1, 1, 1], [3, 1, 1, 1], [1, 1, 1, 1, 1], [2, 1, 1, 1, 1], [3, 2, 1], [4, 1, 1], [5], [6], [4]):
+        A = spider(legs)
+        if len(A) <= max_n:
+            out["spider%s" % legs] = A
+    for c, leaves in ((3, [1, 0, 0]), (3, [2, 1, 0]), (4, [1, 0, 0, 0]), (4, [3, 0, 0, 0]), (4, [1, 0, 1, 0]), (4, [2, 0, 0, 0]), (5, [1, 0, 0, 0, 0]), (5, [2, 0, 0, 0, 0]), (4, [1, 1, 1, 0]), (3, [2, 2, 0]), (6, [0] * 6), (5, [0] * 5), (4, [0] * 4)):
+        A = cycle_with_leaves(c, leaves)
+        if len(A) <= max_n:
+            out["C%d+%s" % (c, leaves)] = A
+    return out
